@@ -93,6 +93,8 @@ def three_way(rep, drv, ops, label, fuel=4000, skip_ref_ops=()):
     try:
         ref = drv.ask(R.scenario_model(ops, 'reference', fuel))
         comp = drv.ask(R.scenario_model(ops, 'compiled', fuel))
+        # the queried predicate's function run from its printed Python text by the model of Python
+        pyt = drv.ask(R.scenario_model(ops, 'python', fuel))
     except common.ModelTimeout:
         rep.count('model-budget-exceeded-skipped')
         return 'skipped'
@@ -100,6 +102,7 @@ def three_way(rep, drv, ops, label, fuel=4000, skip_ref_ops=()):
         raise RuntimeError('driver rejected scenario: ' + sx(R.scenario_model(ops, 'reference', fuel))[:2000])
     ref = ref[1:]
     comp = comp[1:]
+    pyt = pyt[1:] if pyt != Sym('bad-op') else None
     verdict = 'ok'
     # tie T1 on every program of the history: the text the real compiler emits is the model's
     for text in texts:
@@ -135,6 +138,11 @@ def three_way(rep, drv, ops, label, fuel=4000, skip_ref_ops=()):
             rep.disagreements_checked += 1
             rep.broken_ties.append({'tie': 'T2 model-of-compiled-code vs real', 'label': label, 'op_index': i,
                                     'real': r, 'model_of_code': c, 'ops': ops_json(ops), 'prolog': texts})
+        if pyt is not None and 'oof' not in norm(pyt[i]) and r != norm(pyt[i]):
+            verdict = 'model'
+            rep.disagreements_checked += 1
+            rep.broken_ties.append({'tie': 'T2p model of Python running the emitted text vs real', 'label': label, 'op_index': i,
+                                    'real': r, 'model_python': norm(pyt[i]), 'ops': ops_json(ops), 'prolog': texts})
     return verdict
 
 
